@@ -569,6 +569,70 @@ func VerifC07Auto() {
 				}
 			}
 			vAssert("rejected-auto-state-is-justified", just)
+			// the converse, one by one: a called auto state whose own negotiation handler ran and vetoed it is not
+			// active afterwards (unless another state's Add relation can pull it back in: not asserted then) ...
+			vetoedStays := true
+			for _, a := range got {
+				pulled := false
+				for _, n := range s.names {
+					if n != a && verifHas(s.schema[n].Add, a) {
+						pulled = true
+					}
+				}
+				if pulled || !verifHas(post, a) {
+					continue
+				}
+				for _, c := range s.calls {
+					if !s.veto[c.name] {
+						continue
+					}
+					if c.name == a+"Enter" || c.name == a+a || (len(c.name) == 2 && c.name[1:] == a && c.name[:1] != a) {
+						vetoedStays = false
+						if !vSymbolic() {
+							vDump("vetoed auto state active "+a+" by "+c.name, s)
+						}
+					}
+				}
+			}
+			vAssert("vetoed-auto-state-not-active", vetoedStays)
+			// ... and rejecting one never costs a bystander: a state active before the auto mutation is still active
+			// unless a called auto state (or what it Adds) Removes it, or one of its Require states went away
+			bystanders := true
+			cl2 := append(S{}, got...)
+			for grown := true; grown; {
+				grown = false
+				for _, p := range cl2 {
+					for _, q := range s.schema[p].Add {
+						if !verifHas(cl2, q) {
+							cl2 = append(cl2, q)
+							grown = true
+						}
+					}
+				}
+			}
+			for _, b := range mid {
+				if verifHas(post, b) {
+					continue
+				}
+				ok := false
+				for _, p := range cl2 {
+					if verifHas(s.schema[p].Remove, b) {
+						ok = true
+					}
+				}
+				for _, r := range s.schema[b].Require {
+					if !verifHas(post, r) {
+						ok = true
+					}
+				}
+				if !ok {
+					bystanders = false
+					if !vSymbolic() {
+						vDump("bystander deactivated by the auto mutation "+b, s)
+					}
+				}
+			}
+			vAssert("auto-mutation-spares-bystanders", bystanders)
 		}
 	} else {
 		vAssert("no-auto-mutation-otherwise", len(ends) == 1)
